@@ -32,7 +32,15 @@ type simStream struct {
 	cutAt    int // byte offset at which the stream ends early (-1: never)
 	closed   bool
 	reads    int
-	finished bool // EOF, cut or failure has been delivered
+	finished bool  // EOF, cut or failure has been delivered
+	failErr  error // the error a failing Read returns (default errStream)
+}
+
+func (s *simStream) failure() error {
+	if s.failErr != nil {
+		return s.failErr
+	}
+	return errStream
 }
 
 func (s *simStream) Read(p []byte) (int, error) {
@@ -45,7 +53,7 @@ func (s *simStream) Read(p []byte) (int, error) {
 	if s.failAt >= 0 && s.pos >= s.failAt {
 		s.finished = true
 		s.t.Stat("fault:stream.error")
-		return 0, errStream
+		return 0, s.failure()
 	}
 	if s.failAt >= 0 && s.failAt < limit {
 		limit = s.failAt
@@ -53,7 +61,7 @@ func (s *simStream) Read(p []byte) (int, error) {
 	if s.pos >= limit {
 		if s.failAt >= 0 && s.pos >= s.failAt {
 			s.finished = true
-			return 0, errStream
+			return 0, s.failure()
 		}
 		s.finished = true
 		if s.cutAt >= 0 {
@@ -419,6 +427,10 @@ func runC13(t *T) {
 		stream.cutAt = 512 * c.Draw(len(data)/512+1)
 	case "stream-error":
 		stream.failAt = c.Draw(len(data) + 1)
+		if c.Chance(1, 3) {
+			// a cut-off decompressing or limited reader underneath: a bare io.ErrUnexpectedEOF in the middle of the data
+			stream.failErr = io.ErrUnexpectedEOF
+		}
 	case "corrupt-header":
 		// flip a byte inside the header block of a drawn entry (data bytes carry no checksum: a flipped
 		// data byte yields a complete, different file, which is outside the property)
